@@ -1,5 +1,206 @@
 package props
 
-import "pdfverif/internal/core"
+import (
+	"encoding/json"
+	"fmt"
+	"io"
+	"io/fs"
+	"os"
+	"os/exec"
+	"path/filepath"
+	"sort"
+	"strings"
 
-func thoroughExtra(c *core.Ctx, p *Property) {}
+	"pdfverif/internal/core"
+)
+
+type selftestEntry struct {
+	File     string `json:"file"`
+	Property string `json:"property"`
+	Expect   string `json:"expect"` // "fire" or "silent"
+	Rule     string `json:"rule"`
+	What     string `json:"what"`
+}
+
+// copyTree copies the working tree of the repository (without .git) to dst.
+func copyTree(src, dst string) error {
+	return filepath.WalkDir(src, func(path string, d fs.DirEntry, err error) error {
+		if err != nil {
+			return err
+		}
+		rel, _ := filepath.Rel(src, path)
+		if rel == ".git" {
+			return filepath.SkipDir
+		}
+		target := filepath.Join(dst, rel)
+		if d.IsDir() {
+			return os.MkdirAll(target, 0o755)
+		}
+		if !d.Type().IsRegular() {
+			return nil
+		}
+		in, err := os.Open(path)
+		if err != nil {
+			return err
+		}
+		defer in.Close()
+		out, err := os.Create(target)
+		if err != nil {
+			return err
+		}
+		if _, err := io.Copy(out, in); err != nil {
+			out.Close()
+			return err
+		}
+		return out.Close()
+	})
+}
+
+// runOn loads the tree at dir and runs the property's obligations without
+// writing evidence; it returns the obligations.
+func runOn(dir string, p *Property, extraEnv []string) ([]*core.Ob, error) {
+	prog, err := core.Load(dir, extraEnv, p.Patterns...)
+	if err != nil {
+		return nil, err
+	}
+	c := core.NewCtx(p.ID, "selftest", prog)
+	p.Run(c)
+	c.ApplyFloors()
+	return c.Obs, nil
+}
+
+// thoroughExtra: (1) the same obligations under two more build
+// configurations, (2) the checker self-test: every catalogued mutant that
+// targets this property must be reported by the named rule, every catalogued
+// behaviour-preserving variant must leave the property's check silent.
+func thoroughExtra(c *core.Ctx, p *Property) {
+	// (1) build configurations (64-bit only: the repository itself does not type-check for 32-bit targets —
+	// font/cmap/file.go uses the untyped constant 0xFFFF_FFFF as an int — so GOARCH=386 is not a configuration the build covers)
+	for _, cfg := range [][]string{{"GOOS=windows", "GOARCH=amd64"}, {"GOOS=darwin", "GOARCH=arm64"}} {
+		cfg := cfg
+		c.Check("BUILD", strings.Join(cfg, ","), "the verdict does not depend on the build configuration: all obligations discharge for this GOOS/GOARCH as well", func(o *core.Ob) {
+			obs, err := runOn(c.Prog.Dir, p, cfg)
+			if err != nil {
+				o.Count(1)
+				o.Fail("loading with %v failed: %v", cfg, err)
+				return
+			}
+			known := map[string]bool{}
+			for _, k := range c.KnownKeys() {
+				known[k] = true
+			}
+			for _, ob := range obs {
+				o.Count(1)
+				if ob.Status != core.Discharged && !known[ob.Rule+"|"+ob.Key] {
+					o.Fail("%s %s %s under %v: %s", ob.Status, ob.Rule, ob.Key, cfg, ob.Detail)
+				}
+			}
+		})
+	}
+	// (2) self-test
+	b, err := os.ReadFile(filepath.Join(c.VerifDir, "selftest", "catalogue.json"))
+	if err != nil {
+		c.Notes = append(c.Notes, "self-test catalogue not found: "+err.Error())
+		return
+	}
+	var cat []selftestEntry
+	if err := json.Unmarshal(b, &cat); err != nil {
+		c.Notes = append(c.Notes, "self-test catalogue unreadable: "+err.Error())
+		return
+	}
+	// group by patch file
+	byFile := map[string][]selftestEntry{}
+	for _, e := range cat {
+		if e.Property == p.ID {
+			byFile[e.File] = append(byFile[e.File], e)
+		}
+	}
+	var files []string
+	for f := range byFile {
+		files = append(files, f)
+	}
+	sort.Strings(files)
+	base, err := os.MkdirTemp("", "pdfverif-selftest-")
+	if err != nil {
+		c.Notes = append(c.Notes, "cannot create scratch directory: "+err.Error())
+		return
+	}
+	defer os.RemoveAll(base)
+	applied, skipped, agree, disagree := 0, 0, 0, 0
+	var lines []string
+	for i, f := range files {
+		dir := filepath.Join(base, fmt.Sprintf("v%d", i))
+		if err := copyTree(c.Prog.Dir, dir); err != nil {
+			c.Notes = append(c.Notes, "scratch copy failed: "+err.Error())
+			os.RemoveAll(dir)
+			continue
+		}
+		patch, _ := filepath.Abs(filepath.Join(c.VerifDir, f))
+		cmd := exec.Command("git", "apply", "--whitespace=nowarn", patch)
+		cmd.Dir = dir
+		cmd.Env = append(os.Environ(), "GIT_CEILING_DIRECTORIES="+base)
+		if out, err := cmd.CombinedOutput(); err != nil {
+			skipped++
+			lines = append(lines, fmt.Sprintf("SKIP %s (does not apply to the current tree: %s)", f, firstLine(string(out))))
+			os.RemoveAll(dir)
+			continue
+		}
+		applied++
+		obs, err := runOn(dir, p, nil)
+		os.RemoveAll(dir)
+		fired := map[string]bool{}
+		anyFired := false
+		if err != nil {
+			anyFired = true
+			fired["LOAD"] = true
+		}
+		known := map[string]bool{}
+		for _, k := range c.KnownKeys() {
+			known[k] = true
+		}
+		for _, ob := range obs {
+			if ob.Status != core.Discharged && !known[ob.Rule+"|"+ob.Key] {
+				anyFired = true
+				fired[ob.Rule] = true
+			}
+		}
+		for _, e := range byFile[f] {
+			ok := false
+			switch e.Expect {
+			case "fire":
+				ok = fired[e.Rule]
+			case "silent":
+				ok = !anyFired
+			}
+			if ok {
+				agree++
+				lines = append(lines, fmt.Sprintf("OK   %-6s %s %s", e.Expect, f, e.Rule))
+			} else {
+				disagree++
+				var fr []string
+				for r := range fired {
+					fr = append(fr, r)
+				}
+				sort.Strings(fr)
+				lines = append(lines, fmt.Sprintf("MISMATCH expected %s %s for %s, rules that fired: %v", e.Expect, e.Rule, f, fr))
+				fmt.Printf("SELFTEST-MISMATCH property=%s expected=%s rule=%s variant=%s fired=%v\n", p.ID, e.Expect, e.Rule, f, fr)
+			}
+		}
+	}
+	c.Census["selftest_variants_applied"] = applied
+	c.Census["selftest_variants_skipped_not_applicable"] = skipped
+	c.Census["selftest_expectations_met"] = agree
+	c.Census["selftest_expectations_missed"] = disagree
+	if len(lines) > 60 {
+		lines = lines[:60]
+	}
+	c.Notes = append(c.Notes, lines...)
+	fmt.Printf("%s self-test: %d variants applied, %d skipped, %d expectations met, %d missed\n", p.ID, applied, skipped, agree, disagree)
+}
+
+func firstLine(s string) string {
+	if i := strings.IndexByte(s, '\n'); i >= 0 {
+		return s[:i]
+	}
+	return s
+}
